@@ -144,7 +144,7 @@ def map_lrepr(  # pylint: disable=too-many-locals
 
     """
     print_level = kwargs["print_level"]
-    if isinstance(print_level, int) and print_level < 1:
+    if not kwargs["print_dup"] and isinstance(print_level, int) and print_level < 1:
         return SURPASSED_PRINT_LEVEL
 
     kwargs = process_lrepr_kwargs(**kwargs)
